@@ -115,3 +115,63 @@ def model_classes(mdl, ref=None, nblocks=None):
         if ref.beta * ref.bandwidth > 50:
             c.append("cold")
     return c
+
+
+class Blocks:
+    def __init__(self, run):
+        b = run.q("blocks")
+        self.block = b["block"]
+        self.inner = b["inner"]
+        self.blocks = b["blocks"]
+        self.nb = len(self.blocks)
+        self.sizes = [len(x) for x in self.blocks]
+        self.D = len(self.block)
+
+    def consistent(self):
+        if sum(self.sizes) != self.D:
+            return False
+        for b, states in enumerate(self.blocks):
+            for k, s in enumerate(states):
+                if not (0 <= s < self.D) or self.block[s] != b or self.inner[s] != k:
+                    return False
+        return True
+
+
+def cmat(rows):
+    """JSON matrix [[ [re,im],..],..] -> numpy complex array"""
+    a = np.array(rows, dtype=float)
+    if a.size == 0:
+        return np.zeros((len(rows), 0), dtype=complex)
+    return a[..., 0] + 1j * a[..., 1]
+
+
+def conservation_broken(ref, tab):
+    """True if the reference H connects states of different particle number or different per-spin-projection counts"""
+    D = ref.D
+    Hm = np.abs(ref.H) > 1e-13 * ref.scale
+    rr, cc = np.nonzero(Hm)
+    pc = np.array([bin(s).count("1") for s in range(D)])
+    if np.any(pc[rr] != pc[cc]):
+        return True
+    for z in range(3):
+        m = sum(1 << i for i, t in enumerate(tab) if t[2] == z)
+        p = np.array([bin(s & m).count("1") for s in range(D)])
+        if np.any(p[rr] != p[cc]):
+            return True
+    return False
+
+
+def pipeline_guard(run, classes, first_own_line):
+    """common handling of runner death / exceptions in the shared pipeline stages that another property owns.
+    returns a Result to return immediately, or None"""
+    if run.died():
+        reached = max(run.ans.by_line) if run.ans.by_line else 0
+        if reached + 1 >= first_own_line:
+            return crash_result(run, list(classes) + ["crash"])
+        return Result("ok", list(classes) + ["pipeline-crash"], False)
+    qset = set(run.qlines.values())
+    for ln in sorted(run.ans.by_line):
+        a = run.ans.by_line[ln]
+        if "exc" in a and ln < first_own_line:
+            return Result("ok", list(classes) + ["pipeline-exception", "pipeline-exception:%s:%s" % (run.sc.lines[ln - 1].split()[0], a["exc"][:40])], False)
+    return None
